@@ -367,6 +367,11 @@ ClaimEdge(o, i, b, e) ==
             ELSE {}
       vf == IF falling /\ ~inStop /\ ~inVod /\ Quiet(o)
             THEN {V("C07", "leader_demoted_in_fault_free_operation:" \o x.note, i, e)} ELSE {}
+      \* the same where priorities are configured but nobody is entitled to preempt this leader (no started instance with
+      \* takeover enabled and a strictly higher priority): "no preemption" holds, the leader stays
+      noPre == \A j \in Ids \ {i} : ~(o.I[j].present /\ o.I[j].started /\ o.I[j].cfg.tk /\ o.I[j].cfg.prio > x.cfg.prio)
+      vf2 == IF falling /\ ~inStop /\ ~inVod /\ o.tk /\ noPre /\ ~o.faulty /\ ~o.slow /\ ~o.outside /\ ~o.hc /\ ~o.connEv /\ ~o.hard
+             THEN {V("C07", "leader_demoted_without_entitled_preemptor:" \o x.note, i, e)} ELSE {}
       vg == IF falling /\ x.note = "grace_demote" /\ (x.lastDisc < 0 \/ e.t < x.lastDisc + x.cfg.grace)
             THEN {V("C11", "grace_demotion_before_grace_period_elapsed", i, e)} ELSE {}
       \* "... if no reconnect notification arrived": the latest notification before the demotion was a reconnect
@@ -380,7 +385,7 @@ ClaimEdge(o, i, b, e) ==
       \* vacancy filled; an instance that stops claiming while the record is vacant is a candidate from now on
       o2 == IF rising /\ r.live /\ r.id = i THEN [o1 EXCEPT !.vacSince[k] = -1]
             ELSE IF falling THEN Rearm(o1, e.t) ELSE o1
-  IN R(o2, vr \cup vf \cup vg \cup vg2 \cup vh \cup vv)
+  IN R(o2, vr \cup vf \cup vf2 \cup vg \cup vg2 \cup vh \cup vv)
 
 H_m_isleader(o, e) == ClaimEdge(o, e.i, e.v = 1, e)
 
